@@ -1133,3 +1133,50 @@ def run(model, rep):
     rule_h(model, rep, table, pairs)
     # the codecs a hash string is rendered / parsed with are part of the round trip
     _c12.rule_alphabets(model, _Renamed(rep, {"C12.e": "C07.j-codec-alphabets", "C12.f": "C07.j-codec-helpers"}, "C07.x-"))
+    # scram writes and reads its digests under IANA hash names taken from the digest-name table
+    from . import prim as _prim
+    _prim.rule_hash_names(model, rep, "C07.k-digest-names")
+    rule_fresh_records(model, rep)
+
+
+CACHERS = {"lru_cache", "cache", "memoize_single_value", "cached_property", "memoized_property"}
+
+
+def _is_cacher(expr):
+    """`functools.lru_cache`, `lru_cache(maxsize=...)`, `functools.cache` ... as a decorator or as the callee of a rebinding"""
+    e = expr.func if isinstance(expr, ast.Call) else expr
+    return ast.unparse(e).split(".")[-1] in CACHERS
+
+
+def rule_fresh_records(model, rep):
+    """the inspection functions hand each caller a record of its own: the records are ordinary (mutable) dataclasses, so a process-wide
+    cache in front of a public inspect function would serve one caller's edited record to the next"""
+    R = "C07.l-inspect-fresh-records"
+    n = 0
+    for un, unit in model.units.items():
+        if not un.startswith("libpass.inspect"):
+            continue
+        frozen = {c.name for c in ast.walk(unit.tree) if isinstance(c, ast.ClassDef) and any(
+            isinstance(d, ast.Call) and ast.unparse(d.func).split(".")[-1] == "dataclass" and any(k.arg == "frozen" and ast.unparse(k.value) == "True" for k in d.keywords)
+            for d in c.decorator_list)}
+        rebound = {}
+        for st in ast.walk(unit.tree):
+            if isinstance(st, ast.Assign) and isinstance(st.value, ast.Call) and len(st.value.args) == 1 and isinstance(st.value.args[0], ast.Name) and _is_cacher(st.value.func):
+                for t in st.targets:
+                    if isinstance(t, ast.Name) and t.id == st.value.args[0].id:
+                        rebound[t.id] = ast.unparse(st)
+        for q, fn in unit.functions():
+            short = q.split(".")[-1]
+            if short.startswith("_"):
+                continue
+            rets = [r.value for r in walk_no_nested(fn) if isinstance(r, ast.Return) and r.value is not None and not (isinstance(r.value, ast.Constant))]
+            builds = [r for r in rets if isinstance(r, ast.Call) and not (isinstance(r.func, ast.Name) and r.func.id in frozen)]
+            if not builds:
+                continue        # returns no freshly built record
+            n += 1
+            how = [ast.unparse(d) for d in fn.decorator_list if _is_cacher(d)] + ([rebound[short]] if short in rebound and "." not in q else [])
+            rep.check(not how, R, f"{un}:{q}", "; ".join(how) or f"returns {ast.unparse(builds[0].func)}(...) uncached",
+                      "a public inspect function that builds a mutable record is not memoised",
+                      witness="info = inspect_sha_crypt(h, cls); info.rounds = 9999 (deriving another record); inspect_sha_crypt(h, cls).as_str() != h on the next call")
+    if n < 2:
+        rep.undecided(R, "<instance-count>", f"only {n} record-building public inspect functions found, expected at least 2")
